@@ -320,7 +320,7 @@ func c07DoubleOpen(c *ev.Ctx) {
 // through all the others: every pair is on one path, so none may enter.
 func c07SimultaneousFirstWalks(c *ev.Ctx) {
 	const K = 8
-	rounds := c.Sz(150, 1500)
+	rounds := c.Sz(150, 8000)
 	fs := memfs.New()
 	fs.NoWalkGetAttr = true
 	for i := 0; i < rounds; i++ {
